@@ -550,6 +550,17 @@ def rule_patch(ctx: Ctx) -> RuleReport:
         rep.ok({"_open_pdf_reader": "DependencyError(AES) -> patch_pypdf_fallback_aes() -> retry"})
     else:
         rep.fail(Finding("C08-PATCH", PDF, o.qual, "except DependencyError", "the AES fallback is no longer installed and retried when pypdf lacks a crypto backend", line=o.node.lineno))
+    # the built-in AES is installed for every encrypted document, not only when the constructor asks for it: AES-128 (V4) files open and
+    # authenticate without AES and need it only when the first stream is decrypted
+    op = ctx.p.func(X + "pdf/pdf_extractor.py", "_open_pdf_reader")
+    rep.unit(op.key)
+    handlers = {id(x) for t in walk_own(op.node) if isinstance(t, ast.Try) for h in t.handlers for st in h.body for x in ast.walk(st)}
+    normal = [i for i in walk_own(op.node) if isinstance(i, ast.If) and id(i) not in handlers and any(isinstance(a_, ast.Attribute) and a_.attr == "is_encrypted" for a_ in ast.walk(i.test))
+              and any(isinstance(c, ast.Call) and (dotted(c.func) or "").split(".")[-1] == "patch_pypdf_fallback_aes" for st in i.body for c in ast.walk(st))]
+    if normal:
+        rep.ok({"_open_pdf_reader": "fallback installed whenever the opened document is encrypted"})
+    else:
+        rep.fail(Finding("C08-PATCH", X + "pdf/pdf_extractor.py", op.qual, "fallback only on DependencyError", "the built-in AES is installed only when PdfReader(...) raises DependencyError, which AES-256 files do and AES-128 files do not: an AES-128 PDF with an empty user password fails in a fresh process (and works after any AES-256 file was read)", line=op.node.lineno))
     return rep
 
 
